@@ -9,7 +9,7 @@ CONSTANTS
   Palette <- QPalette
   Ptrs = {4, 8}
   WithVft = {FALSE, TRUE}
-  WithPacked = {FALSE}
+  WithPacked = {FALSE, TRUE}
   Names = {"f"}
 INVARIANTS Inv_RustDefined Replay
 CHECK_DEADLOCK FALSE
